@@ -133,11 +133,13 @@ def k3_query(cont, method, mid, n, prop, rlen=2, timeout=300):
 RMETHODS = {'insert_range': 20, 'erase_range': 21, 'find_range': 22, 'find_range_fill': 23}
 
 
-def k5_query(cont, mode, n, prop, rmethod=None, rlen=2, ts='no', timeout=600):
+def k5_query(cont, mode, n, prop, rmethod=None, rlen=2, ts='no', timeout=600, extra=None, tag=''):
     defs = {'CONT_HDR': '"c_%s.hpp"' % cont, 'MODE': mode, 'HCAP': n, 'PROP': prop, 'TS': ts, 'RLEN': rlen, 'RMAX': max(rlen, 1),
             'RMETHOD': RMETHODS.get(rmethod, 0), 'VSTD_TAB_MAX': n + 1, 'VSTD_LIST_MAX': n + 1}
+    if extra:
+        defs.update(extra)
     cb = [] if prop == 0 else ['VF_CHECK_ASSUME']
-    name = 'k5_%s_m%d_%s_n%d_r%d_p%d_%s' % (cont, mode, rmethod or 'x', n, rlen, prop, ts)
+    name = 'k5_%s_m%d_%s_n%d_r%d_p%d_%s%s' % (cont, mode, rmethod or 'x', n, rlen, prop, ts, tag)
     heavy = cont in ('lfuda', 'utmap', 'utset', 'tlru', 'utlru', 'lfu')
     return Query(name, 'k5_rel.cpp', defs, hooks=('k5_hooks.c',), unwind=n + 5, cbmc_defines=cb, timeout=timeout,
                  cbmc_flags=(['--trace'] if prop != 99 else []),
